@@ -44,6 +44,14 @@ def _pred(ch, visible):
         # conjunctions and disjunctions (a message may satisfy one part only)
         opts.append(binop('and', ch.pick([X0, X1]), eq))
         opts.append(binop('or', ch.pick([X0, X1]), ('un', 'not', eq)))
+    # the same two conditions written with a quantifier over a set built on the field; the bound variable may carry
+    # the name of an alias used somewhere in the property (visible here, bound by one alternative only, the event's own): just a name
+    v = ch.pick(['i', 'P', 'S', 'Y0', 'Y1', 'Y2'])
+    opts.append(('q', 'forall', v, ('set', (own('x'), ('lit', 'int', '1'))), binop('=', ('var', v), ('lit', 'int', '1'))))
+    opts.append(('q', 'exists', v, ('set', (own('x'),)), binop('=', ('var', v), ('lit', 'int', '0'))))
+    if visible and v not in visible:
+        a = visible[-1]
+        opts.append(('q', 'forall', v, ('set', (own('x'), ('field', ('var', a), 'x'))), binop('=', ('var', v), ('field', ('var', a), 'x'))))
     return ch.pick(opts)
 
 
